@@ -45,13 +45,14 @@ Inductive ekind :=
 | KType                          (* TypeError *)
 | KNone                          (* NoneReturnedError *)
 | KDeep                          (* DeepReferenceError *)
-| KName.                         (* NameError / AttributeError: unknown cells or reference *)
+| KName                          (* NameError / AttributeError: unknown cells or reference *)
+| KBase.                         (* a BaseException that is not an Exception (KeyboardInterrupt, SystemExit) *)
 Definition catchable (k : ekind) : bool :=
   match k with KValue | KKeyErr | KZero => true | _ => false end.
 Definition ekind_eqb (a b : ekind) : bool :=
   match a, b with
   | KValue, KValue | KKeyErr, KKeyErr | KZero, KZero | KType, KType
-  | KNone, KNone | KDeep, KDeep | KName, KName => true
+  | KNone, KNone | KDeep, KDeep | KName, KName | KBase, KBase => true
   | _, _ => false
   end.
 
@@ -578,14 +579,15 @@ Definition cells_in_space (st : state) (sp : option nat) : list cid :=
 
 (** [change_ref]: [RefDict.del_item] first clears the readers through
     attributes, then the containers notify every cells whose namespace shows
-    the reference *)
+    the reference.  (The new value is stored first in the code; clearing never
+    reads reference values, so storing it last gives the same state.) *)
 Definition set_ref_value (st : state) (r : rid) (v : val) : out * state :=
   match lookup_ref (s_refs st) r with
   | None => (ORejected, st)
   | Some (sp, _) =>
-      let st1 := upd_refs st (set_ref (s_refs st) r (sp, v)) in
-      let st2 := clear_attr_referrers st1 r in
-      (OOk, fold_left on_namespace_change (cells_in_space st2 sp) st2)
+      let st2 := clear_attr_referrers st r in
+      let st3 := fold_left on_namespace_change (cells_in_space st2 sp) st2 in
+      (OOk, upd_refs st3 (set_ref (s_refs st3) r (sp, v)))
   end.
 
 (** [set_cells_formula] / [set_cache] on a cells without sub spaces *)
